@@ -179,6 +179,8 @@ def report_schedule(rep, model_exe, o, n, xl, info, coq_checked=None):
 
 def eval_stress(line, out, n, mode, a, s):
     """-> (list of problems, signature)"""
+    if out.split()[1:2] == ["skipped"]:
+        return [], {"kind": "skipped"}
     if out.split()[1:2] in (["timeout"], ["crashed"]):
         return ["native run %s: a thread never returned" % out.split()[1]], {"kind": "wait_forever_native"}
     f = kv(out)
@@ -286,13 +288,18 @@ def run(tier, replay=None):
 
     # ---------------------------------------------------------------- 2. exploration of the regenerated program
     ns = (2, 3)
-    found = explore(rep, model_exe, BOOL_ORACLES, ns, "every run" if ok else "Coq obligation broken: %s" % (broken or {}).get("error", "")[:200])
+    if info.get("error"):
+        found = []      # nothing was translated (fail closed): the dynamic half has to decide
+        rep.notes.setdefault("explorer", []).append({"skipped": "translation failed: " + info["error"][:300]})
+    else:
+        found = explore(rep, model_exe, BOOL_ORACLES, ns, "every run" if ok else "Coq obligation broken: %s" % (broken or {}).get("error", "")[:200])
     for o, n, xl in found[:3]:
         report_schedule(rep, model_exe, o, n, xl, info)
+    deferred_no_input = None
     if not ok and not found:
-        rep.violation("Coq obligation no longer checks (%s) and the exhaustive exploration of 2 and 3 threads finds no violating schedule" % (broken or {}).get("error", "")[:300],
+        deferred_no_input = ("Coq obligation no longer checks (%s) and the exhaustive exploration of 2 and 3 threads finds no violating schedule" % (broken or {}).get("error", "")[:300],
                       {"theorem_or_file": broken, "theorem": "C17_checker_accepts_current_binary", "translate_error": info.get("error"),
-                       "listing": info.get("listing")}, no_input=True)
+                       "listing": info.get("listing")})
 
     # ---------------------------------------------------------------- 3. sequential conformance
     q = []
@@ -313,7 +320,10 @@ def run(tier, replay=None):
             for (a, s) in BOOL_ORACLES + [(0, 0xffffffff), (1, 0xffffffff), (0xffffffff, 0), (2, 0), (0, 3)]:
                 q.append("Q qf%x_%x_%x full %d %x %x %x" % (w, a, s, labels["isal_self_tests"], w, a, s))
     mo, _ = run_model(model_exe, q)
-    no, nerr = run_native(impl_exe, q)
+    try:
+        no, nerr = run_native(impl_exe, q, tmo=8, timeout=600)
+    except subprocess.TimeoutExpired:
+        no, nerr = {}, "timeout" 
     diffs = []
     for l in q:
         cid = l.split()[1]
@@ -338,7 +348,18 @@ def run(tier, replay=None):
     for k in range(2 * mult): plan.append((64, "realfail-aes", 0, 0, 0))
     for k in range(2 * mult): plan.append((64, "realfail-sha", 0, 0, 0))
     slines = ["S s%d %d %s %x %x %d 8" % (k, n, mode, a, s, d) for k, (n, mode, a, s, d) in enumerate(plan)]
-    so, serr = run_native(impl_exe, slines, tmo=20)
+    # in chunks: when threads wait forever every case costs its whole timeout, so stop early
+    so = {}
+    for k in range(0, len(slines), 6):
+        try:
+            o, _ = run_native(impl_exe, slines[k:k + 6], tmo=8, timeout=120)
+        except subprocess.TimeoutExpired:
+            o = {l.split()[1]: l.split()[1] + " timeout" for l in slines[k:k + 6]}
+        so.update(o)
+        if sum(1 for v in o.values() if v.split()[1:2] == ["timeout"]) >= 2:
+            for l in slines[k + 6:]:
+                so[l.split()[1]] = l.split()[1] + " skipped"
+            break
     dist = {}
     nrep = 0
     for l, (n, mode, a, s, d) in zip(slines, plan):
@@ -356,6 +377,8 @@ def run(tier, replay=None):
         rep.sample({"case": slines[0], "impl": so.get("s0")})
     rep.cov["traces_validated_against_impl"] += len(slines)
 
+    if deferred_no_input and not rep.violations:
+        rep.violation(deferred_no_input[0], deferred_no_input[1], no_input=True)
     if diffs and not rep.violations:
         l, m, i = diffs[0]
         rep.violation("the interpreter of the translated program and the real code differ on a sequential call: model `%s` impl `%s`" % (m, i),
